@@ -57,6 +57,8 @@ def base_pool(rng, mkl=None):
             cands += [s[: mkl - 1] + b"\x00", b"\x00" * mkl, b"\x00" * (mkl - 1)]
     for _ in range(3):
         cands.append(rand_key(rng, rng.randrange(0, 12)))
+    for n in (31, 32, 33, 63):
+        cands.append(stem + rand_key(rng, n - 20) if n > 20 else stem[:n])
     size = rng.randrange(3, 13)
     pool = []
     # NUL-aliased pairs are kept together with some probability
@@ -92,6 +94,9 @@ def hll_pool(rng, p, seed):
     # some bulk so that several registers are in play
     for _ in range(rng.randrange(0, 12)):
         pool.append(rand_key(rng, rng.randrange(0, 20)))
+    if rng.random() < 0.3:
+        # lengths around the one-byte boundary and a long key (arbitrary byte strings are in scope)
+        pool.append(rand_key(rng, rng.choice([255, 256, 257, 1000])))
     out = []
     for k in pool:
         if k not in out:
@@ -150,6 +155,9 @@ def draw_config(rng, family, wmax=16, dmax=8, nodes_max=4, events=(20, 80), **ov
         cfg["seed"] = draw_seed64(rng)
     cfg["n_nodes"] = rng.randrange(1, nodes_max + 1)
     cfg["n_events"] = rng.randrange(events[0], events[1] + 1)
+    if rng.random() < 0.04:
+        # a few long histories: defects that need the N-th call, or state that only builds up
+        cfg["n_events"] *= rng.choice([4, 8])
     cfg["factory"] = rng.random() < 0.3 and family in CMS
     cfg["observe"] = "clone" if rng.random() < 0.7 else "live"
     if family == "hll":
@@ -167,6 +175,10 @@ MULT_CLASSES = {
     "mid": lambda r: r.randrange(6, 10 ** 4 + 1),
     "zero": lambda r: 0,
     "big": lambda r: r.randrange(10 ** 4, 2 * 10 ** 5),
+    # powers of two and their neighbours: the values at which narrow integer types,
+    # masks and off-by-one comparisons change behaviour
+    "pow2": lambda r: max(0, (1 << r.randrange(1, 41)) + r.choice([-1, 0, 0, 1])),
+    "pow2s": lambda r: max(0, (1 << r.randrange(1, 14)) + r.choice([-1, 0, 0, 1])),
     "ceil": lambda r: U32MAX + r.randrange(-3, 3),
     "half": lambda r: (1 << 31) + r.randrange(-2, 3),
     "huge": lambda r: r.choice([1 << 32, (1 << 32) + 1, 1 << 40, r.randrange(1 << 32, 1 << 40)]),
